@@ -6,10 +6,12 @@ CONSTANTS
   KeepStatus = FALSE
   RecheckAtApply = TRUE
   RecheckISR = TRUE
+  KeepOnFail = FALSE
   CountAll = FALSE
   InitISRs = {{"r1"}, {"r1", "r2"}, {"r1", "r2", "r3"}, {"r1", "r2", "r3", "r4"}}
   L0 = "r1"
   PairSels = {"cur", "sl", "prev", "next", "pep", "first"}
   MaxOps = 16
+  Faults = TRUE
   MaxPend = 0
 CHECK_DEADLOCK FALSE
